@@ -53,4 +53,23 @@ def getVolume (x : PMInput) (o : PMObject) (cached : Bool) (ori : List Rat) (hin
       | .ok frames =>
         .ok (sp, origin, (List.range n.toNat).map (fun (s : Nat) => (vp.idxOf? (s : Int)).bind (fun f => frames[f]?)))
 
+/-- `get_volume(apply_real_world_transform=True, real_world_value_map_selector=sel)`: every frame goes through the pixel
+    transform built for ITS index (`_get_pixels_by_frame`, forwarding table T19f): the mapping selected from the mappings attached
+    to that frame, applied to its stored values; one frame outside its mapping's range refuses the whole call -/
+def getVolumeReal (x : PMInput) (o : PMObject) (cached : Bool) (ori : List Rat) (hint rtol atol : Option Rat) (allowMissing : Bool)
+    (sel : Selector) : Except ErrKind (Rat × List Rat × List (Option (List Rat))) :=
+  if x.m ≠ 1 ∨ ¬ (positionRows x).Nodup then .error .runtime
+  else
+    match Stack.assembleFrames (positionRows x) ori hint rtol atol allowMissing with
+    | .error e => .error e
+    | .ok (sp, origin, n, vp) =>
+      match (List.range x.n).mapM (fun (f : Nat) => do
+          let cells ← volumeFrame o cached (f : Int)
+          let ms ← attachedMappings o f
+          let mp ← select ms sel
+          applyMapping mp (cells.map cellValue)) with
+      | .error e => .error e
+      | .ok frames =>
+        .ok (sp, origin, (List.range n.toNat).map (fun (s : Nat) => (vp.idxOf? (s : Int)).bind (fun f => frames[f]?)))
+
 end HdVerif.PMap
